@@ -633,8 +633,8 @@ impl Family for C15Family {
     fn total(&self, tier: Tier) -> u64 {
         n_sweep_bases()
             + match tier {
-                Tier::Quick => 600_000,
-                Tier::Thorough => 40_000_000,
+                Tier::Quick => 4_000_000,
+                Tier::Thorough => 300_000_000,
             }
     }
 
